@@ -146,13 +146,13 @@ def search(seed, tier):
         a, b = rng.uniform(-2, 2), rng.uniform(-2, 2)
         f = lambda th, ph: torch.sin(a * th) * torch.cos(ph) + b
         gg = lambda th, ph: torch.cos(b * th + ph) - a
-        r0, r1 = rng.uniform(0, 3), rng.uniform(0, 3)
+        r0, r1 = rng.choice([rng.uniform(0, 3), rng.uniform(0, 3), 0.0, 0]), rng.choice([rng.uniform(0, 3), rng.uniform(0, 3), 0.0, 0])
         if abs(r0 - r1) < 1e-3:
             continue
         k = rng.uniform(0.05, 4)
         th = torch.rand(n, 1) * 3.1; ph = torch.rand(n, 1) * 6.2
         net = FCNN(3, 1, hidden_units=(8,))
-        full = lambda v: torch.full((n, 1), v)
+        full = lambda v: torch.full((n, 1), float(v))
 
         def chk(case, got, want, **kw):
             if not torch.allclose(got.detach(), want.detach(), rtol=1e-7, atol=1e-7 * (1 + float(want.abs().max()))):
